@@ -1936,7 +1936,8 @@ int32 tls13EncodeResponseClient(ssl_t *ssl, psBuf_t *out, uint32 *requiredLen)
         }
         if (ssl->tls13ClientEarlyDataEnabled == PS_TRUE)
         {
-            ssl->tls13ClientEarlyDataEnabled = PS_FALSE;
+            /* The flag is cleared when the whole flight is written (below):
+               a second pass after SSL_FULL must take this branch again */
             rc = tls13WriteEndOfEarlyData(ssl, out);
             if (rc < 0)
             {
@@ -1987,6 +1988,7 @@ int32 tls13EncodeResponseClient(ssl_t *ssl, psBuf_t *out, uint32 *requiredLen)
         {
             return rc;
         }
+        ssl->tls13ClientEarlyDataEnabled = PS_FALSE;
         ssl->hsState = SSL_HS_DONE;
         tls13ClearHsState(ssl);
         tls13ClearHsTemporaryState(ssl);
